@@ -202,14 +202,15 @@ def h_nodes(ta: int, sa: int, ha: bool, core: int, ram: int, disk: int, nc: int,
     return True
 
 
-def _log_case(ta, tb, sa, sb, ha, core, alloc, acore, nc, ca, cb, st, bw, hs, ss):
+def _log_case(ta, tb, sa, sb, ha, core, alloc, acore, nc, ca, cb, st, bw, hs, ss, nb=0):
     NT = [NodeType.VM, NodeType.Switch, NodeType.Facility]
     comps = [ca, cb][:nc]
     a = mk_node(0, 0, sa, core, 4, 10, ha, comps)
     a.set_type(NT[ta])
     if alloc:
         a.capacity_allocations = Capacities(core=acore, ram=2, disk=5)
-    b = mk_node(1, 0, sb, 2, 4, 10, True, [])
+    comps_b = [cb][:nb]          # the second node may carry a component of the same type as the first
+    b = mk_node(1, 0, sb, 2, 4, 10, True, comps_b)
     b.set_type(NT[tb])
     svc = mk_service(0, st, ss, 0, bw, hs)
     lc = LogCollector()
@@ -230,7 +231,7 @@ def _log_case(ta, tb, sa, sb, ha, core, alloc, acore, nc, ca, cb, st, bw, hs, ss
     if at['vm_count'] != vms or at['p4_count'] != p4s or at['core_count'] != cores:
         return False
     exp_comp = {}
-    for x in comps:
+    for x in comps + comps_b:
         exp_comp[str(CTYPES[x])] = exp_comp.get(str(CTYPES[x]), 0) + 1
     if dict(at['components']) != exp_comp:
         return False
@@ -249,21 +250,21 @@ def _log_case(ta, tb, sa, sb, ha, core, alloc, acore, nc, ca, cb, st, bw, hs, ss
 
 def _mk_log_harness(ta, tb):
     def h_log(sa: int, ha: bool, core: int, alloc: bool, acore: int, nc: int, ca: int, cb: int,
-              st: int, bw: int, hs: bool, ss: int) -> bool:
+              st: int, bw: int, hs: bool, ss: int, nb: int) -> bool:
         """
-        pre: 0 <= sa < 3 and 0 <= ss < 2 and 0 <= nc <= 2
+        pre: 0 <= sa < 3 and 0 <= ss < 2 and 0 <= nc <= 2 and 0 <= nb <= 1
         pre: 0 <= ca < 2 and 0 <= cb < 2 and 1 <= st < 3 and core >= 0 and acore >= 0 and bw >= 0
         post: R(_)
         """
-        return _log_case(ta, tb, sa, 1, ha, core, alloc, acore, nc, ca, cb, st, bw, hs, ss * 2)
+        return _log_case(ta, tb, sa, 1, ha, core, alloc, acore, nc, ca, cb, st, bw, hs, ss * 2, nb)
     return h_log
 
 
 for _ta in range(3):
     for _tb in range(3):
-        add("accounting_counts_equal_tally/%d%d" % (_ta, _tb), _mk_log_harness(_ta, _tb), timeout=400, encodes=ENC_LOG,
+        add("accounting_counts_equal_tally/%d%d" % (_ta, _tb), _mk_log_harness(_ta, _tb), timeout=900, encodes=ENC_LOG,
             bounds="nodes of types (%s,%s): node A site in {unset,2}, capacities bit, capacity-allocations bit, unbounded cores, 0..2 components of 2 types; "
-                   "node B fixed site; 1 service (2 types, bw unbounded, capacities bit, site in {unset, 1}); counts vs direct tally"
+                   "node B fixed site, 0..1 component; 1 service (2 types, bw unbounded, capacities bit, site in {unset, 1}); counts vs direct tally"
                    % (["VM", "Switch", "Facility"][_ta], ["VM", "Switch", "Facility"][_tb]))
 
 
@@ -291,12 +292,14 @@ def _build(spec, order):
         n.add_component(name='nic', ctype=_CT.SmartNIC, model='ConnectX-6')
         nodes.append(n)
     t.add_facility(name='fac1', site='RENC', capacities=Capacities(bw=10))
-    # an in-slice port: n0's first NIC port connected to a bridge; the service-side peer carries the port's local name
-    p0 = nodes[0].components['nic'].interface_list[0]
-    br = t.add_network_service(name='br', nstype=_ST.L2Bridge, interfaces=[p0])
-    br.interface_list[0].labels = _Labels(local_name='in-slice-port')
     for j in order:
         kind, si, inslice = spec[j]
+        if kind == 'bridge':
+            # an in-slice port: n0's first NIC port connected to a bridge; the service-side peer carries the port's local name
+            p0 = nodes[0].components['nic'].interface_list[0]
+            br = t.add_network_service(name='br', nstype=_ST.L2Bridge, interfaces=[p0])
+            br.interface_list[0].labels = _Labels(local_name='in-slice-port')
+            continue
         host = nodes[si].components['nic'].interface_list[1] if kind == 'mirror' and j % 2 == 0 else None
         if kind == 'mirror':
             to_if = nodes[si].components['nic'].interface_list[1]
@@ -317,7 +320,8 @@ def _build(spec, order):
 
 def _topo_case(kinds, sites, inslice, all_orders=True):
     import itertools as _it
-    spec = list(zip(kinds, sites, inslice))
+    # the bridge owning the in-slice port is one of the services whose creation order varies
+    spec = [('bridge', 0, False)] + list(zip(kinds, sites, inslice))
     exp_ext = {}
     for (kind, si, ins) in spec:
         attr = {'mirror': RA.RESOURCE_MIRROR_SITE, 'v4ext': RA.RESOURCE_FABNETV4_EXT, 'v6ext': RA.RESOURCE_FABNETV6_EXT}.get(kind)
@@ -334,7 +338,7 @@ def _topo_case(kinds, sites, inslice, all_orders=True):
         for attr in (RA.RESOURCE_MIRROR_SITE, RA.RESOURCE_FABNETV4_EXT, RA.RESOURCE_FABNETV6_EXT):
             if sorted(a.get(attr, [])) != sorted(exp_ext.get(attr, set())):
                 return False
-        if sorted(a.get(RA.RESOURCE_SITE, [])) != sorted(set(TSITES) | {TSITES[si] for (_, si, _) in spec}):
+        if sorted(a.get(RA.RESOURCE_SITE, [])) != sorted(set(TSITES) | {TSITES[si] for (k_, si, _) in spec if k_ != 'bridge'}):
             return False
         if sorted(a.get(RA.RESOURCE_CPU, [])) != [2, 3] or a.get(RA.RESOURCE_FACILITY_PORT) != ['fac1']:
             return False
@@ -344,6 +348,12 @@ def _topo_case(kinds, sites, inslice, all_orders=True):
         lc.collect_resource_attributes(source=t)
         la = lc.attributes
         if la['vm_count'] != 2 or la['core_count'] != 5 or set(la['facilities']) != {'fac1'}:
+            return False
+        tally = {}
+        for n_ in t.nodes.values():
+            for c_ in n_.components.values():
+                tally[str(c_.type)] = tally.get(str(c_.type), 0) + 1
+        if dict(la['components']) != tally:
             return False
         if first is None:
             first = a
@@ -386,5 +396,5 @@ for _k0, _kn in enumerate(['mirror', 'v4ext', 'v6ext', 'l2sts']):
         tiers=("thorough",),
         bounds="real slice built through the topology API (2 VMs with smart NICs on 2 sites, facility, bridge giving an in-slice port) + a %s service, a "
                "second service of symbolic kind in {port mirror, FABNetv4Ext, FABNetv6Ext, L2STS} and a third external port mirror; sites symbolic (2), "
-               "mirrors of the in-slice port or of an external one symbolic; every creation order (3!); authorization attributes and accounting counts "
+               "mirrors of the in-slice port or of an external one symbolic; every creation order of the four services incl. the bridge that owns the in-slice port (4!); authorization attributes and accounting counts "
                "vs tally; the slice code runs with tracing off once the indices are resolved" % _kn)
